@@ -25,6 +25,9 @@ type rsFineVariant struct {
 	After   []rsOp // requests submitted after the task goroutine was released, before CONNACK
 	MethodB bool
 	Note    string
+	Kind    int    // 0: held task on a dead client while the loop reconnects; 1: held inside a Retry pass
+	Ops     []rsOp // Kind 1: first request (fails), then the requests deferred behind it
+	Faults  []rsFault
 }
 
 func (v *rsFineVariant) describe() map[string]interface{} {
@@ -37,7 +40,7 @@ func (v *rsFineVariant) describe() map[string]interface{} {
 // client 1 and is pinned before init; Between is submitted; the task goroutine is released (it must
 // notice the switch and wait); After is submitted; Connect goes on and is accepted (session present).
 func rsRunFine(v *rsFineVariant) (rsObs, string) {
-	sc := &rsScenario{MethodB: v.MethodB}
+	sc := &rsScenario{MethodB: v.MethodB, Faults: v.Faults}
 	var obs rsObs
 	b := newRsBroker(sc)
 	dialReq := make(chan struct{}, 1)
@@ -155,7 +158,11 @@ func rsRunFine(v *rsFineVariant) (rsObs, string) {
 	waitTasks := func(n int, where string) bool {
 		deadline := time.Now().Add(rsWait)
 		for {
-			st := cli.Stats()
+			st, ok := rsStats(cli)
+			if !ok {
+				obs.Stuck = where + ": Stats() does not return"
+				return false
+			}
 			if st.TotalTasks+st.QueuedTasks >= n {
 				return true
 			}
@@ -179,7 +186,105 @@ func rsRunFine(v *rsFineVariant) (rsObs, string) {
 		b.connectGo <- rsAccept
 		return true
 	}
+	script1 := func() {
+		// connection 0: first request fails (ack lost), the others are deferred behind it
+		if !wait(dialReq, "first dial") {
+			return
+		}
+		dialGo <- struct{}{}
+		lab("LDial true")
+		lab("LSetClient")
+		lab("LConnBegin")
+		if !connectAccept(false, "conn 0") {
+			return
+		}
+		lab("LConnEnd (CoAccept false)")
+		lab("LPushResub")
+		lab("LPushRetry")
+		if !waitTasks(1, "loop did not push Retry on conn 0") || !barrier("conn 0") {
+			return
+		}
+		lab("LObserve 1%nat")
+		lab("LTask")
+		for i, op := range v.Ops {
+			submit(op)
+			if !barrier("conn 0 op") {
+				return
+			}
+			if i == 1 {
+				lab("LObserve 1%nat") // after the failed first request the goroutine re-observes
+			}
+			lab("LTask")
+		}
+		// the loop redials; the Retry pass on connection 1 will be pinned in OnError
+		if !wait(dialReq, "no redial") {
+			return
+		}
+		lab("LDetectEnd")
+		lab("LBackoff")
+		mu.Lock()
+		holdErr = true
+		mu.Unlock()
+		dialGo <- struct{}{}
+		lab("LDial true")
+		lab("LSetClient")
+		lab("LConnBegin")
+		if !connectAccept(true, "conn 1") {
+			return
+		}
+		lab("LConnEnd (CoAccept true)")
+		lab("LPushResub")
+		lab("LPushRetry")
+		lab("LTask") // notices the switch
+		lab("LObserve 2%nat")
+		if !wait(inErr, "Retry pass did not reach OnError") {
+			return
+		}
+		// pinned inside the Retry pass; connection 1 is dead (the write was cut): the loop reconnects
+		if !wait(dialReq, "no redial during the pinned pass") {
+			return
+		}
+		dialGo <- struct{}{}
+		select {
+		case <-b.connectReached:
+		case <-time.After(rsWait):
+			obs.Stuck = "conn 2: CONNECT not written"
+			return
+		}
+		// the new client is set and initialised, its CONNECT is held: release the pass; what is left of it
+		// must still run against the connection the pass belongs to
+		nwire := func() int { b.mu.Lock(); defer b.mu.Unlock(); return len(b.wire) }
+		before := nwire()
+		close(goErr)
+		deadline := time.Now().Add(400 * time.Millisecond)
+		for nwire() < before+len(v.Ops)-2 && time.Now().Before(deadline) {
+			time.Sleep(50 * time.Microsecond)
+		}
+		time.Sleep(2 * time.Millisecond)
+		lab("LTask") // the Retry pass, atomic in the model
+		lab("LDetectEnd")
+		lab("LBackoff")
+		lab("LDial true")
+		lab("LSetClient")
+		lab("LConnBegin")
+		b.mu.Lock()
+		b.connectSP = true
+		b.mu.Unlock()
+		b.connectGo <- rsAccept
+		lab("LConnEnd (CoAccept true)")
+		lab("LPushResub")
+		lab("LPushRetry")
+		if !waitTasks(pushed+3, "loop did not push Retry on conn 2") || !barrier("conn 2") {
+			return
+		}
+		lab("LObserve 3%nat")
+		lab("LTask")
+	}
 	func() {
+		if v.Kind == 1 {
+			script1()
+			return
+		}
 		// connection 0
 		if !wait(dialReq, "first dial") {
 			return
@@ -268,7 +373,10 @@ func rsRunFine(v *rsFineVariant) (rsObs, string) {
 		}
 	}()
 	if obs.Stuck == "" {
-		st := cli.Stats()
+		st, ok := rsStats(cli)
+		if !ok {
+			obs.Stuck = "Stats() does not return"
+		}
 		obs.RetryQ = st.QueuedRetries
 		obs.TaskQ = st.QueuedTasks
 	}
@@ -315,20 +423,38 @@ func rsFineVariants() []*rsFineVariant {
 		}
 		out = append(out, &rsFineVariant{Held: rsP(1, 1), Between: []rsOp{rsP(2, 0), rq3}, Note: "held task queued a retry; QoS0 and another request between SetClient and init"})
 	}
+	// pinned inside a Retry pass (OnError of a deferred request whose write was cut) while the loop has already
+	// installed and initialised the next client: the rest of the pass still belongs to the old connection
+	for _, q := range []byte{1, 2} {
+		out = append(out, &rsFineVariant{Kind: 1, Ops: []rsOp{rsP(1, 1), rsP(2, q), rsP(3, 1)},
+			Faults: []rsFault{{0, 0, fAckLost}, {1, 1, fWriteFail}},
+			Note:   "Retry pass pinned in OnError while the next client is already set and initialised"})
+		out = append(out, &rsFineVariant{Kind: 1, MethodB: true, Ops: []rsOp{rsP(1, 2), rsP(2, q), rsP(3, 2), rsS(4, rsSub{"a", 1})},
+			Faults: []rsFault{{0, 0, fAckLost}, {1, 1, fWriteFail}},
+			Note:   "Retry pass pinned in OnError while the next client is already set and initialised"})
+	}
 	return out
 }
 
-func rsFineFamily(cf *casesFile, m *meta) int {
+func rsFineFamily(cf *casesFile, m *meta) int { return rsFineFamilyPred(cf, m, "lc01_ok") }
+
+func rsFineFamilyC03(cf *casesFile, m *meta) int { return rsFineFamilyPred(cf, m, "lc03_ok") }
+
+func rsFineFamilyPred(cf *casesFile, m *meta, pred string) int {
 	vs := rsFineVariants()
 	var items []string
 	for _, v := range vs {
 		obs, labels := rsRunFine(v)
-		sc := fmt.Sprintf("{| ls_cfg := {| c_method_b := %s; c_always_resub := false; c_timeout := false |}; ls_faults := []; ls_labels := %s |}", cBool(v.MethodB), labels)
+		var fs []string
+		for _, f := range v.Faults {
+			fs = append(fs, fmt.Sprintf("(%d%%nat,%d%%nat,%s)", f.Conn, f.Idx, rsFaultName[f.Kind]))
+		}
+		sc := fmt.Sprintf("{| ls_cfg := {| c_method_b := %s; c_always_resub := false; c_timeout := false |}; ls_faults := %s; ls_labels := %s |}", cBool(v.MethodB), cListInline(fs), labels)
 		items = append(items, cTuple(sc, obs.coq()))
 		m.Families["fine"] = append(m.Families["fine"], map[string]interface{}{"schedule": v.describe(), "observed": obs.describe()})
 	}
 	cf.def("cases_fine", "list (lscenario * obs)", cList(items))
-	cf.result("V_fine", "lfailing lc01_ok cases_fine")
+	cf.result("V_fine", "lfailing "+pred+" cases_fine")
 	cf.result("M_fine", "lfailing lmodel_ok cases_fine")
 	return len(vs)
 }
